@@ -1,8 +1,8 @@
 #!/bin/bash
-# usage: tryseed.sh <seed-id> <prop,prop,...>   (uses scratch worktree /tmp/wt2 at /repo HEAD)
+# usage: tryseed.sh <seed-id> <prop,prop,...>   (uses scratch worktree /tmp/wt5 at /repo HEAD)
 set -u
-git -C /repo worktree list | grep -q /tmp/wt2 || git -C /repo worktree add -q --detach /tmp/wt2 HEAD
-git -C /tmp/wt2 reset -q --hard; git -C /tmp/wt2 checkout -q --detach "$(git -C /repo rev-parse HEAD)"
-(cd /tmp/wt2 && git apply --3way /verif/seeded/$1/patch.diff >/dev/null 2>&1 || echo "PATCH DOES NOT APPLY"; git reset -q)
-/verif/bin/mcapvet multi "$2" --repo /tmp/wt2 --verif /verif | cut -c1-${3:-600}
-git -C /tmp/wt2 reset -q --hard
+git -C /repo worktree list | grep -q /tmp/wt5 || git -C /repo worktree add -q --detach /tmp/wt5 HEAD
+git -C /tmp/wt5 reset -q --hard; git -C /tmp/wt5 checkout -q --detach "$(git -C /repo rev-parse HEAD)"
+(cd /tmp/wt5 && git apply --3way /verif/seeded/$1/patch.diff >/dev/null 2>&1 || echo "PATCH DOES NOT APPLY"; git reset -q)
+/verif/bin/mcapvet multi "$2" --repo /tmp/wt5 --verif /verif | cut -c1-${3:-600}
+git -C /tmp/wt5 reset -q --hard
